@@ -18,7 +18,8 @@ LEVEL = 'fault_enumeration'
 SHAPES = [0, 1, 2, ('cn0', 'cn0'), ('cn0', 'cn0', 'cn1')]
 CERTS = [None] + [(ncn, eku) for ncn in SHAPES
                   for eku in (None, ('server',), ('client',),
-                              ('server', 'client'))]
+                              ('server', 'client'), ('any',),
+                              ('server', 'any'), ('email', 'codesign'))]
 
 
 def names_of(shape):
@@ -60,7 +61,7 @@ DETERMINISM = {'quick': 8, 'thorough': 30}
 CHUNK = 4
 EXHAUSTIVE = {'quick': True, 'thorough': True}
 RULE = ('complete product: %d certificate shapes (absent; 0/1/2 distinct '
-        'common names, the same name twice, three names x EKU absent / serverAuth only / clientAuth / both; real DER) '
+        'common names, the same name twice, three names x EKU absent / serverAuth only / clientAuth / both / anyExtendedKeyUsage / serverAuth+any / other usages; real DER) '
         'x enable_tls_client_auth on/off x %d plugin configurations (none, '
         'and every list of 1-2 blocks over %s) x %d requests = %d cases, all '
         'executed in every run with the session constructed by the harness, '
